@@ -9,7 +9,7 @@ trap 'rm -rf "$D"' EXIT
 git -C /repo archive HEAD | tar -x -C "$D"
 (cd "$D" && git init -q . && git apply --whitespace=nowarn "$PATCH") || { echo "PATCH DOES NOT APPLY: $PATCH"; exit 3; }
 for id in "$@"; do
-  out=$(VERIF_REPO="$D" VERIF_DIR=/verif /verif/check "$id" "${TIER:-quick}" 2>&1); rc=$?
+  out=$(VERIF_REPO="$D" VERIF_OUT="$D/.verif-out" VERIF_DIR=/verif /verif/check "$id" "${TIER:-quick}" 2>&1); rc=$?
   echo "seed=$(basename $(dirname "$PATCH")) check=$id rc=$rc $(echo "$out" | tail -1 | cut -c1-160)"
   echo "$out" | grep -a -m3 -A2 "^VIOLATION\|^BROKEN" | cut -c1-300
 done
